@@ -250,6 +250,9 @@ PROFILES = {
     'threaddup': {'threads': True, 'p_dup': 0.85},
     # threads that rebuild existing outputs (each moves an old output aside), often followed by a rollback
     'threadsrb': {'threads_rb': True},
+    # the same histories with a yield point at every executed line of the library's small shared data structures
+    'threadsrbl': {'threads_rb': True, 'line_trace': ['file_backups.py', 'build_dirs.py', 'cache.py']},
+    'threadsfl': {'threads_rb': True, 'line_trace': ['file_backups.py', 'build_dirs.py', 'cache.py'], 'rb_foreign': True},
     # threads that also issue queries (on paths whose answers cannot depend on the other threads)
     'threadsq': {'threads_q': True},
     # base histories for fault injection (every eligible library call is a fault point)
@@ -628,7 +631,13 @@ def make_threads_rb(seed, profile):
     second = [{'s': 'bf', 'p': t, 'f': rnd.choice(['fW2', 'fW2', 'fR', 'fW']), 'args': [10 + i],
                'cmp': rnd.choice(['METADATA', 'HASH'])} for i, t in enumerate(targets)]
     steps = []
-    if rnd.random() < 0.5:
+    r0 = 0.0 if PROFILES[profile].get('rb_foreign') else rnd.random()
+    if r0 < 0.3:
+        # no earlier build: the threads overwrite *foreign* files (each is moved aside first; C03: all of them are
+        # back after the rollback)
+        for i, t in enumerate(targets):
+            steps.append({'op': 'ext', 'do': 'write', 'p': t, 'c': 'c9', 'sz': 4 + 2 * (i % 2)})
+    elif r0 < 0.65:
         steps.append({'op': 'build', 'name': 'B', 'vers': {}, 'root': first + [{'s': 'return'}]})
     else:
         steps.append({'op': 'build', 'name': 'B', 'vers': {}, 'root': [
@@ -641,8 +650,11 @@ def make_threads_rb(seed, profile):
     steps.append({'op': 'build', 'name': 'B', 'vers': {}, 'root': [json.loads(json.dumps(par)), {'s': 'return'}]})
     if rnd.random() < 0.7:
         steps.append({'op': 'clean', 'name': 'B'})
-    return {'id': '%s-%d' % (profile, seed), 'cache': ['k'], 'universe': [], 'threads': True, 'prog': THREAD_PROGS,
-            'steps': steps, 'combo': True}
+    sc = {'id': '%s-%d' % (profile, seed), 'cache': ['k'], 'universe': [], 'threads': True, 'prog': THREAD_PROGS,
+          'steps': steps, 'combo': True}
+    if PROFILES[profile].get('line_trace'):
+        sc['line_trace'] = list(PROFILES[profile]['line_trace'])
+    return sc
 
 
 def make_threads_q(seed, profile):
